@@ -237,6 +237,8 @@ func c07Run(cfg c07Cfg) {
 		w.dbCols = []string{"id", "name", "team", "age", "city"}
 	case 1: // database order differs from the struct's, plus a column the struct does not have
 		w.dbCols = []string{"city", "extra", "age", "team", "name", "id"}
+	case 2: // columns of the same type swapped (a positional decoder would not even notice)
+		w.dbCols = []string{"team", "city", "id", "age", "name"}
 	}
 	var table []*sqlgen.VerifUser
 	for i := 0; i < nrows; i++ {
@@ -306,7 +308,7 @@ var c07AllFilters = []int{0, 1, 2, 3, 4, 5, 6}
 
 // quick: 1 row, 1 write, integer / NULL filters, permuted database columns
 func VerifC07OneWrite() {
-	c07Run(c07Cfg{rows: 1, writes: 1, faults: []int{c07FaultNone}, layouts: []int{1}, filters: []int{1, 2, 3, 6}})
+	c07Run(c07Cfg{rows: 1, writes: 1, faults: []int{c07FaultNone}, layouts: []int{1, 2}, filters: []int{1, 2, 3, 6}})
 }
 
 // quick: 1 row, 1 insert or update, filter on the string column / a value on the pointer column
